@@ -84,7 +84,14 @@ class Run:
             f.write(cfg)
         meta = os.path.join(self.dir, "meta-" + name)
         outpath = os.path.join(self.dir, name + ".out")
-        cmd = ["timeout", str(timeout), "tlc", "-workers", str(workers or NCPU), "-metadir", meta,
+        jar = "/opt/veriftools/tla/tla2tools.jar"
+        if os.path.exists(jar):
+            # java is started directly so that -Xss also sizes the main thread (initial states are computed there and
+            # the recursive operators of the specification are deep); same class path and GC as the `tlc` wrapper
+            launcher = ["java", "-Xss512m", "-XX:+UseParallelGC", "-cp", jar + ":/opt/veriftools/tla/CommunityModules-deps.jar", "tlc2.TLC"]
+        else:
+            launcher = ["tlc"]
+        cmd = ["timeout", str(timeout)] + launcher + ["-workers", str(workers or NCPU), "-metadir", meta,
                "-seed", str(self.seed), "-config", cfgpath]
         if simulate:
             cmd += ["-simulate", simulate]
